@@ -48,7 +48,7 @@ def gate(F, R):
         connect_reg = arm_region(b, pe.get('Connect', []))
         if not connect_reg:
             raise AnchorLost('%s handshake: Connect arm' % ver)
-        oks = [(bi, j, s) for bi, j, s in agg_sites(b, r'^std::result::Result$', 'Ok') if s['lhs']['l'] == 0]
+        oks = [(bi, j, s) for bi, j, s in agg_sites(b, r'^std::result::Result$', 'Ok') if s['lhs']['l'] in b.ret_locals]
         R.ob('C19.gate', '%s|HandshakeService::call|Ok-exits' % ver, len(oks) == 1, 'found %d' % len(oks))
         # session Some edge
         sess = []
@@ -77,7 +77,7 @@ def gate(F, R):
         for sb, tb, nb in sess:
             nreg = b.reachable(nb, avoid=[tb])
             encs = {bi for bi, t in b.calls_to(IO_ENCODE) if bi in nreg}
-            errs = [bi for bi, j, s in agg_sites(b, r'^std::result::Result$', 'Err') if bi in nreg and s['lhs']['l'] == 0]
+            errs = [bi for bi, j, s in agg_sites(b, r'^std::result::Result$', 'Err') if bi in nreg and s['lhs']['l'] in b.ret_locals]
             ok = bool(encs) and all(b.must_pass(encs, e, start=nb) for e in errs) and bool(errs)
             R.ob('C19.gate', '%s|HandshakeService::call|refusal: CONNACK before Err' % ver, ok, 'a refused handshake must write the refusing CONNACK before the connection is dropped')
             # accept edge: CONNACK written before Ok
@@ -183,7 +183,7 @@ def setter_from(F, R, b, name, setter_pat, want_fields, arg_idx=1, root=None, ke
     disp = [bi for bi, t in b.calls() if re.search(r'create_dispatcher$|Dispatcher::<.*>::new$|dispatcher::create_dispatcher$|::Dispatcher.*::new$', callee_name(t) or '')]
     if not disp:
         # the accept path ends in the Ok(..) result that hands the session to the dispatcher factory
-        disp = [bi for bi, j, s in agg_sites(b, r'^std::result::Result$', 'Ok') if s['lhs']['l'] == 0 and any(bi in b.reachable_after(h) for h in hit)]
+        disp = [bi for bi, j, s in agg_sites(b, r'^std::result::Result$', 'Ok') if s['lhs']['l'] in b.ret_locals and any(bi in b.reachable_after(h) for h in hit)]
     if hit and disp:
         # `if let Some(v) = <the negotiated Option> { set(v) }`: the absent edge legitimately leaves the default
         through = set(hit)
@@ -251,7 +251,7 @@ def limits(F, R):
         hb = F.one(HS[ver])
         ok = False
         for bi, j, s in agg_sites(hb, r'^std::result::Result$', 'Ok'):
-            if s['lhs']['l'] != 0:
+            if s['lhs']['l'] not in hb.ret_locals:
                 continue
             import c05
             names = c05.origin_field_names(F, hb, s['rv']['fields'][0], re.compile(TRANSPARENT_CALLS.pattern[:-2] + r'|new)$'))
